@@ -184,7 +184,18 @@ class Connection:
         obj.__setstate__(state)
         obj._p_serial = p64(tid)
 
+    # set to n > 0: the n-th following register() call raises DMBoom (what a
+    # data manager does when its transaction can no longer be joined: a
+    # failed commit that was not aborted yet, a closed connection)
+    fail_register = 0
+
     def register(self, obj):
+        if self.fail_register:
+            self.fail_register -= 1
+            if self.fail_register == 0:
+                self.registrations_refused = getattr(
+                    self, 'registrations_refused', 0) + 1
+                raise DMBoom('register refused')
         if self.log_events:
             self.events.append((self.op_index, 'register', obj._p_oid))
         if not any(o is obj for o in self.registered):
